@@ -132,12 +132,13 @@ void bn_add(bn_t c, const bn_t a, const bn_t b) {
 		}
 	} else {
 		/* If the signs are different, subtract. */
+		/* Set the sign first, a zero result is normalized afterwards. */
 		if (bn_cmp_abs(a, b) == RLC_LT) {
-			bn_sub_imp(c, b, a);
 			c->sign = sb;
+			bn_sub_imp(c, b, a);
 		} else {
-			bn_sub_imp(c, a, b);
 			c->sign = sa;
+			bn_sub_imp(c, a, b);
 		}
 	}
 }
@@ -196,12 +197,13 @@ void bn_sub(bn_t c, const bn_t a, const bn_t b) {
 		}
 	} else {
 		/* If the signs are equal, adjust the sign and subtract. */
+		/* Set the sign first, a zero result is normalized afterwards. */
 		if (bn_cmp_abs(a, b) != RLC_LT) {
-			bn_sub_imp(c, a, b);
 			c->sign = sa;
+			bn_sub_imp(c, a, b);
 		} else {
-			bn_sub_imp(c, b, a);
 			c->sign = (sa == RLC_POS) ? RLC_NEG : RLC_POS;
+			bn_sub_imp(c, b, a);
 		}
 	}
 }
